@@ -1,14 +1,52 @@
+import importlib
+import json
+import os
+
 from .oracles import ORACLES
+
+_ROOT = os.path.dirname(os.path.dirname(os.path.abspath(__file__)))
+
+
+def _open_findings():
+    p = os.path.join(_ROOT, 'known_findings.json')
+    if not os.path.exists(p):
+        return []
+    with open(p) as fh:
+        return [f for f in json.load(fh).get('findings', []) if f.get('kind') == 'open']
+
+
+def match_known(oracle, args, bad):
+    """open known finding matched by this failure (oracle listed AND witness-class predicate holds), else None"""
+    for kf in _OPEN:
+        names = kf.get('oracles') or ([kf['oracle']] if kf.get('oracle') else [])
+        if names and oracle not in names:
+            continue
+        cls = kf.get('witness_class')
+        if cls:
+            mod, fn = cls.rsplit('.', 1)
+            try:
+                if not getattr(importlib.import_module(mod), fn)(args, {'replay': {'violated_clauses': bad}, 'oracle': oracle}):
+                    continue
+            except Exception:
+                continue
+        return kf
+    return None
+
+
+_OPEN = _open_findings()
 
 
 class Tally:
+    """runs oracles, counts cases; failures matching an OPEN known finding (known_findings.json) are kept
+    apart (count + one example) so that they neither hide nor crowd out new violations"""
+
     def __init__(self, max_fail=5):
         self.evaluations = 0
         self.distinct = set()
         self.failures = []
         self.samples = []
         self.max_fail = max_fail
-        self.known = []
+        self.known = {}
 
     def run(self, oracle, args, key=None, nontrivial=True):
         self.evaluations += 1
@@ -17,12 +55,23 @@ class Tally:
         bad = ORACLES[oracle](**args)
         if len(self.samples) < 3:
             self.samples.append({'oracle': oracle, 'args': args})
-        if bad and len(self.failures) < self.max_fail:
-            self.failures.append({'oracle': oracle, 'args': args, 'violated_clauses': bad})
+        if bad:
+            self.record_failure(oracle, args, bad)
         return bad
+
+    def record_failure(self, oracle, args, bad):
+        kf = match_known(oracle, args, bad)
+        if kf is not None:
+            k = self.known.setdefault(kf['what'], {'what': kf['what'], 'property': kf.get('property'), 'count': 0,
+                                                   'example': {'oracle': oracle, 'args': args, 'violated_clauses': bad}})
+            k['count'] += 1
+            return True
+        if len(self.failures) < self.max_fail:
+            self.failures.append({'oracle': oracle, 'args': args, 'violated_clauses': bad})
+        return False
 
     def result(self, **extra):
         r = {'evaluations': self.evaluations, 'distinct_nontrivial': len(self.distinct),
-             'failures': self.failures, 'samples': self.samples}
+             'failures': self.failures, 'samples': self.samples, 'known_findings': list(self.known.values())}
         r.update(extra)
         return r
